@@ -142,10 +142,14 @@ Fixpoint node_tval (ty : tty) (n : node) : option tval :=
 
 Definition is_empty_map (v : tval) : bool := match v with TVM [] => true | _ => false end.
 
-(* Convention for AssignNode arguments of the typed engines: a basicnode container ([NMap], [NList])
-   is a node of ANOTHER implementation (the assembler ranges over it); a container of the other
-   constructors ([NFMap], [NFList]) stands for a node of the SAME engine and type (the run hands the
-   generated code only its own nodes in that form): the same-type shortcut copies it. *)
+(* Convention for AssignNode arguments of the typed engines: [NFMap] / [NFList] stand for a node whose
+   Go type IS the engine's type-level node type for the schema type at that position — a type-level node,
+   or what a representation-level builder built (it hands back the type-level node): the assembler's
+   same-type shortcut copies it.  Everything else is a node of ANOTHER implementation and is ranged over:
+   basicnode containers ([NMap], [NList]) and also the representation VIEW (node.Representation()) of the
+   engine's own nodes, whose Go type the shortcut does not match (checked on gendemo: the view of a
+   non-empty map panics in the generic path like a basicnode map, into either builder level; struct views
+   are accepted).  The drivers hand views over as [NMap] / [NList]. *)
 Definition same_impl (n : node) : bool := match n with NFMap _ | NFList _ => true | _ => false end.
 
 (* a position holding a value of type ty: the root builder, a map value, a list element *)
